@@ -132,7 +132,7 @@ Proof.
   { rewrite F2, app_length. lia. }
   assert (Hsum : of_be (firstn 4 (bstream (rBuf d'))) = adler32 (out (Inflate.inflate [] l))).
   { unfold byte. rewrite Hbuf, Esum, Hdig, HAA, HAS, E2. reflexivity. }
-  unfold EOFpost. cbn [zl_r zl_dec].
+  unfold EOFpost. cbn [zl_set_r zl_r zl_dec].
   split; [exact (zl_tail_ceof l (bstream (rBuf d')) E1 Hrest Hlen Hsum)|].
   split.
   { destruct S1 as (_ & D & HD & HC). split; [exact F1|].
@@ -143,7 +143,7 @@ Proof.
   { rewrite (zl_tail_left l (bstream (rBuf d')) E1 Hrest Hlen Hsum).
     rewrite F2. replace 4%nat with (length buf) by lia. symmetry. apply skipn_len_app. }
   split; [rewrite F3, E3; lia|].
-  unfold zl_fast. cbn [zl_dec]. exact I.
+  unfold zl_fast. cbn [zl_set_r zl_r zl_dec]. exact I.
 Qed.
 
 Lemma zl_reads_ok2 : forall reads z T acc,
@@ -290,13 +290,14 @@ Proof.
     split.
     + exists (skipn (N.to_nat (consumed b)) D).
       assert (E : bstream b = skipn (N.to_nat (consumed b)) (src_of b)).
-      { unfold src_of. rewrite <- (repeat_length 0 (N.to_nat (consumed b))) at 2.
-        symmetry. apply skipn_len_app. }
+      { unfold src_of.
+        pose proof (skipn_len_app N (repeat 0 (N.to_nat (consumed b))) (bstream b)) as X.
+        rewrite repeat_length in X. symmetry. exact X. }
       rewrite E, HD, skipn_app.
       replace (N.to_nat (consumed b) - length D)%nat with 0%nat by lia. reflexivity.
     + split; [|exact C5].
       apply (f_equal (@length N)) in HD. unfold src_of in HD.
-      rewrite !app_length, repeat_length in HD. unfold lenN. lia.
+      rewrite !app_length, repeat_length in HD. unfold lenN, byte in *. lia.
   - destruct (zl_reads_stuck HSK reads z1 [] ltac:(rewrite Herr; exact G)) as (tl & Etl & Hall).
     rewrite EL in Etl. injection Etl as -> ->. cbn [rev app]. rewrite Herr in Hall.
     assert (Hno : ~ In (GR REOF) (map snd tl)).
@@ -313,12 +314,12 @@ Proof.
   intros HG data cs bufsize t reads Hbytes Hcs Hne Hbit.
   destruct (newbuf_ok bufsize cs t Hne) as (B1 & B2 & B3).
   change (mkBuf (N.max bufsize 16) [] 0 None cs t 0) with (mkbufrd bufsize cs t) in *.
+  unfold zlrun_ext, zlNewReaderDict.
   set (b := mkbufrd bufsize cs t) in *. clearbody b.
   assert (Hs : bstream b = data) by (rewrite B2; exact Hcs).
   assert (Hf : zl_fast (zlZero b)) by exact I.
   pose proof (HG (zlZero b) b [] reads B1) as H. cbv zeta in H. rewrite Hs in H.
   specialize (H Hbytes Hf Hbit).
-  unfold zlrun_ext, zlNewReaderDict.
   destruct (zlReset (zlZero b) b []) as [z1 e0].
   destruct (zl_reads_g z1 reads []) as [lst z2].
   destruct H as (_ & _ & _ & _ & _ & H6).
